@@ -23,5 +23,6 @@ def replay(v):
     from mc import bootstrap
     bootstrap.init()
     factory = explore.load_factory(v["harness"])
-    x, h = explore.run_one(factory, v["cfg"], v["labels"], max_steps=max(400, len(v["labels"]) + 50))
+    x, h = explore.run_one(factory, v["cfg"], v["labels"],
+                           max_steps=v.get("max_steps") or max(400, len(v["labels"]) + 50))
     return [dict(y.as_dict(), cfg=v["cfg"], labels=v["labels"], harness=v["harness"]) for y in x.violations]
